@@ -141,6 +141,33 @@ def _two_sided(arg):
     return ok, "masked clamp: upper side %s, lower side %s" % ("present" if "hi" in sides else "MISSING", "present" if "lo" in sides else "MISSING"), cur
 
 
+def _effective_pair(lat, ai, bi, phi):
+    """(s, c) actually multiplying the latitude formula sin(lat') = -s cos b sin(a - phi) + c sin b, read off the evaluated term"""
+    try:
+        k, rest = lat.as_independent(ai, bi, as_Add=False)
+        if not isinstance(rest, sp.asin):
+            return None
+        arg = rest.args[0]
+        CL = sp.Function("CLIP")
+        for _ in range(4):
+            if isinstance(arg, CL):
+                arg = arg.args[0]
+            elif isinstance(arg, sp.Piecewise):
+                d = [v for v, c in arg.args if c == sp.true]
+                if not d:
+                    return None
+                arg = d[0]
+            else:
+                break
+        c = sp.simplify(arg.subs(bi, 90))
+        sneg = sp.simplify(arg.subs(bi, 0).subs(ai, (sp.pi / 2 + phi) * 180 / sp.pi))
+        if c.free_symbols or sneg.free_symbols:
+            return None
+        return -sneg, c
+    except Exception:
+        return None
+
+
 def euler_core(chk, repo, fi, tabs):
     se = symx.SymEval(repo)
     ai, bi = symx.symbols("ai", "bi")
@@ -153,6 +180,19 @@ def euler_core(chk, repo, fi, tabs):
                 chk.ob("R09.2", tag + "::returns-pair", False, fi.where(), "expected (lon, lat), got %r" % (r,))
                 continue
             T = {k: sp.Rational(mp.nstr(tabs[(ep, k)][sel - 1], 25)) for k in ("psi", "stheta", "ctheta", "phi")}
+            eff = _effective_pair(r[1], ai, bi, T["phi"])
+            if eff is not None:
+                se_, ce_ = eff
+                dev = abs(mp.mpf(sp.N(se_ ** 2 + ce_ ** 2 - 1, 40)))
+                # a point at the pole of the target system gets sin(lat') = s^2 + c^2; with s^2 + c^2 = 1 - eps the latitude is short of 90 deg by
+                # sqrt(2 eps) rad, so the property's 1e-5 degree (poles are in its quantifier) needs eps <= (1e-5 pi/180)^2 / 2 = 1.5e-14
+                lim = (mp.mpf("1e-5") * mp.pi / 180) ** 2 / 2
+                chk.ob("R09.1", "euler::rotation-sine-cosine-unit-norm" if dev > lim else tag + "::rotation-sine-cosine-unit-norm", dev <= lim, fi.where(),
+                       "the sine/cosine pair actually used satisfies |s^2 + c^2 - 1| <= %s (needed for 1e-5 degree at the target pole, where sin(lat') = s^2 + c^2); "
+                       "deviation %s" % (mp.nstr(lim, 3), mp.nstr(dev, 3)))
+                tie = abs(mp.mpf(sp.N(se_ - T["stheta"], 40))) <= mp.mpf("1e-10") and abs(mp.mpf(sp.N(ce_ - T["ctheta"], 40))) <= mp.mpf("1e-10")
+                chk.ob("R09.1", tag + "::pair-used-is-the-tabulated-pair", bool(tie), fi.where(), "the pair used agrees with the tabulated stheta/ctheta within 1e-10 (renormalisation only)")
+                T["stheta"], T["ctheta"] = se_, ce_
             a = ai * d2r - T["phi"]
             b = bi * d2r
             lat_arg = -T["stheta"] * sp.cos(b) * sp.sin(a) + T["ctheta"] * sp.sin(b)
